@@ -179,6 +179,24 @@ TREES = {
 }
 
 
+def _hub_cells(informative):
+    """hub h with leaves y1..y6: all factors but one are 'colouring' constraints whose marginal on h is flat; only
+    factor number ``informative`` tells h which value is best (unique optimum)"""
+    def cells(k, vals, mode):
+        h, y = vals
+        same = (h == y)
+        if k == informative:
+            if mode == "min":
+                return (3 if h == 0 else 0) + (1 if y == 10 else 0)
+            return (3 if h == 10 else 0) + (1 if y == 0 else 0)
+        return (5 if same else 0) if mode == "min" else (0 if same else 5)
+    return cells
+
+
+TREES["hub6"] = dict(vars=dict([("h", [10, 0])] + [("y%d" % i, [10, 0]) for i in range(1, 7)]),
+                     cons=[["h", "y%d" % i] for i in range(1, 7)], cells=_hub_cells(4))
+
+
 def h_tree(env):
     p = env.params
     algo = p["algo"]
@@ -189,8 +207,14 @@ def h_tree(env):
     pool = p.get("pool", list(range(0, 12)))
 
     def cell(env_, name):
+        if "cells" in spec:   # structured instance: the cell value is a function of (constraint index, values)
+            k = int(name[1:name.index("[")])
+            raw = name[name.index("[") + 1:-1].split(",")
+            doms = [spec["vars"][v] if not isinstance(spec["vars"][v], tuple) else spec["vars"][v][0] for v in spec["cons"][k]]
+            vals = [next(d for d in dom if str(d) == r) for dom, r in zip(doms, raw)]
+            return spec["cells"](k, vals, mode)
         return rng.choice(pool)
-    spec2 = dict(spec)
+    spec2 = {k_: v_ for k_, v_ in spec.items() if k_ != "cells"}
     spec2["cell_maker"] = cell
     import pydcop.dcop.relations as R
     # concrete instance: integer tables drawn from the seeded pool; variable costs too
@@ -232,6 +256,13 @@ def h_tree(env):
                 net.run(policy, max_steps=1, rng=srng)
         if policy == "lifo" and algo == "maxsum":
             policy = "rr"   # the synchronous version never quiesces: only fair schedules make sense
+        if p.get("pause_resume_after") is not None:
+            # the hosting agent pauses every computation in the middle of the run and resumes them (management operation)
+            net.run(policy, max_steps=p["pause_resume_after"], rng=srng)
+            for c in net.comps.values():
+                c.pause(True)
+            for c in net.comps.values():
+                c.pause(False)
         steps = net.run(policy, max_steps=p.get("max_steps", 1500 if algo == "maxsum" else 4000), rng=srng)
     except HandlerRaised as e:
         env.prove("%s.C08.no-cycle-error-or-handler-exception" % algo, False, detail=lambda: "%s\n%s" % (e, e.tb))
@@ -261,8 +292,14 @@ def _tree_shapes(algo):
                 if i % 5 == 4:
                     d["algo_params"] = dict(start_messages="leafs_vars")
                 q.append(d)
+        if algo == "amaxsum":
+            for i, spec in enumerate(["chain3", "star_nary", "forest", "chain3_unary"]):
+                q.append(dict(algo=algo, spec=spec, inst_seed=100 + i, pause_resume_after=2 + i))
+            # a hub whose informative factor speaks last / first / at random
+            for i, pol in enumerate(["starve:c4", "favor:c4", "random", "random", "random", "fifo"] + (["random"] * 12 if tier == "thorough" else [])):
+                q.append(dict(algo=algo, spec="hub6", inst_seed=0, policy=pol, sched_seed=i, start_order="shuffle" if i % 2 else "fwd"))
         if prop in ("C10", "C08") and tier == "quick":
-            return q[::5]
+            return q[::5] + [d for d in q if d.get("pause_resume_after") is not None][:2]
         return q
     return f
 
